@@ -421,3 +421,123 @@ Proof.
   destruct (v_jailed (getv s res)); cbn [negb andb]; [right; right; right; repeat split; auto|].
   destruct (has_params s c); [right; right; left; reflexivity | right; right; right; repeat split; auto].
 Qed.
+
+(* ---------------------------------------------------------------- statements used by Props/C08.v *)
+Lemma step_recv frac period s c key infr addr_ok power h res now :
+  step frac period s (ORecv c key infr addr_ok power h res now) = snd (recv_slash s c key infr addr_ok power h res now).
+Proof.
+  unfold step, step_out. destruct (recv_slash s c key infr addr_ok power h res now); reflexivity.
+Qed.
+
+(* jail_cond spelled out *)
+Lemma jail_cond_spec s c infr addr_ok power h res :
+  jail_cond s c infr addr_ok power h res = true <->
+  exists x height,
+    getc s c = Some x /\ h = Some height /\                         (* registered channel, known vsc id *)
+    validate addr_ok power infr = true /\ infr = DOWNTIME /\        (* well-formed downtime report *)
+    c_phase x = LAUNCHED /\ In res (c_set x) /\                     (* launched, in the consumer's stored set *)
+    0 <= meter (thr s) /\                                           (* the throttle admits the packet *)
+    v_found (getv s res) = true /\ v_status (getv s res) <> UNBONDED /\
+    v_tomb (getv s res) = false /\ v_jailed (getv s res) = false /\
+    c_params x <> None.
+Proof.
+  unfold jail_cond, wellformed, launched, member, admitted, punishable, has_params.
+  split.
+  - intros H. repeat (apply andb_true_iff in H; destruct H as [H ?]).
+    destruct (getc s c) as [x|]; [|discriminate]. destruct h as [height|]; [|discriminate].
+    apply andb_true_iff in H. destruct H as [Hv Hd].
+    exists x, height. repeat split; auto.
+    + now apply Z.eqb_eq.
+    + now apply Z.eqb_eq.
+    + now apply memz_In.
+    + apply negb_true_iff, Z.ltb_ge in H3. lia.
+    + apply andb_true_iff in H2. destruct H2 as [H2 _]. apply andb_true_iff in H2. tauto.
+    + apply andb_true_iff in H2. destruct H2 as [H2 _]. apply andb_true_iff in H2. destruct H2 as [_ H2].
+      apply negb_true_iff, Z.eqb_neq in H2. assumption.
+    + apply andb_true_iff in H2. destruct H2 as [_ H2]. now apply negb_true_iff.
+    + now apply negb_true_iff.
+    + destruct (c_params x); [discriminate | discriminate].
+  - intros (x & height & -> & -> & Hv & Hd & Hp & Hm & Hmet & Hf & Hs & Ht & Hj & Hpar).
+    rewrite Hv, Hf, Ht, Hj. subst infr. rewrite Hp.
+    apply memz_In in Hm. rewrite Hm. cbn [andb negb Z.eqb].
+    assert (E1 : (meter (thr s) <? 0) = false) by (apply Z.ltb_ge; lia). rewrite E1.
+    apply Z.eqb_neq in Hs. rewrite Hs. cbn [andb negb].
+    destruct (c_params x); [reflexivity | contradiction].
+Qed.
+
+Lemma jail_iff_run frac period init ops c key infr addr_ok power h res now :
+  let s := fold_left (step frac period) ops init in
+  let s' := step frac period s (ORecv c key infr addr_ok power h res now) in
+  (v_jailed (getv s' res) = true /\ v_jailed (getv s res) = false)
+  <-> jail_cond s c infr addr_ok power h res = true.
+Proof. intros s s'. unfold s'. rewrite step_recv. apply jail_iff. Qed.
+
+Lemma nobody_else_run frac period init ops o :
+  let s := fold_left (step frac period) ops init in
+  let s' := step frac period s o in
+  match o with
+  | ORecv c key infr addr_ok power h res now =>
+      (forall i, i <> res -> getv s' i = getv s i) /\
+      length (vals s') = length (vals s) /\
+      (infr = DOUBLE_SIGN -> s' = s) /\
+      v_found (getv s' res) = v_found (getv s res) /\ v_status (getv s' res) = v_status (getv s res) /\
+      v_tomb (getv s' res) = v_tomb (getv s res) /\ v_lastpow (getv s' res) = v_lastpow (getv s res)
+  | OExt _ => True
+  | _ => vals s' = vals s
+  end.
+Proof.
+  intros s s'. destruct o as [c key infr addr_ok power h res now | prod | now total | rows | c0 phase set params].
+  - unfold s'. rewrite step_recv. split; [intros i Hi; now apply recv_frame|].
+    split; [apply recv_vals_length|]. split; [apply double_sign_noop|].
+    rewrite recv_target. destruct (jail_cond s c infr addr_ok power h res); [|auto].
+    destruct (getc s c) as [x|]; [|auto]. destruct h; [|auto]. destruct (c_params x) as [[fr du]|]; auto.
+  - apply (step_vals_other frac period s (OEpoch prod)).
+  - apply (step_vals_other frac period s (OBegin now total)).
+  - exact I.
+  - apply (step_vals_other frac period s (OCons c0 phase set params)).
+Qed.
+
+Lemma params_run frac period init ops c key infr addr_ok power h res now :
+  let s := fold_left (step frac period) ops init in
+  let s' := step frac period s (ORecv c key infr addr_ok power h res now) in
+  jail_cond s c infr addr_ok power h res = true ->
+  exists x fr dur height,
+    getc s c = Some x /\ c_params x = Some (fr, dur) /\ h = Some height /\
+    getv s' res = jail_val (getv s res) fr dur power height now /\
+    v_jailed (getv s' res) = true /\
+    v_until (getv s' res) = now + dur /\
+    v_tokens (getv s' res) = slash_tokens fr power (v_tokens (getv s res)) /\
+    v_log (getv s' res) = v_log (getv s res) ++ [(height, power, fr)].
+Proof.
+  intros s s' Hj. unfold s'. rewrite step_recv.
+  pose proof (recv_vals s c key infr addr_ok power h res now) as H. rewrite Hj in H.
+  destruct H as (x & fr & dur & height & Ec & Ep & -> & H0 & Hl & E).
+  exists x, fr, dur, height. repeat split; auto;
+    rewrite recv_target, Hj, Ec, Ep; reflexivity.
+Qed.
+
+Lemma ack_step_run frac period init ops c key infr addr_ok power h res now c' :
+  let s := fold_left (step frac period) ops init in
+  let s' := step frac period s (ORecv c key infr addr_ok power h res now) in
+  acks_of s' c' = acks_of s c' ++ (if (c =? c') && ack_cond s c infr addr_ok power h res then [key] else []).
+Proof. intros s s'. unfold s'. rewrite step_recv. apply recv_acks. Qed.
+
+Lemma class_run frac period init ops c key infr addr_ok power h res now :
+  let s := fold_left (step frac period) ops init in
+  snd (fst (step_out frac period s (ORecv c key infr addr_ok power h res now))) =
+  match getc s c with
+  | None => 0
+  | Some x =>
+    if negb (validate addr_ok power infr) then 4
+    else match h with
+         | None => 4
+         | Some _ =>
+           if infr =? DOUBLE_SIGN then 1
+           else if (c_phase x =? LAUNCHED) && memz res (c_set x) && (meter (thr s) <? 0) then 3 else 2
+         end
+  end.
+Proof.
+  intros s. unfold step_out.
+  pose proof (recv_class s c key infr addr_ok power h res now) as H.
+  destruct (recv_slash s c key infr addr_ok power h res now) as [r0 s0]. exact H.
+Qed.
